@@ -134,10 +134,38 @@ TASK_POOL = [
 ]
 
 
+def _err_info(fn_coro):
+    """Wrap a coroutine factory so that a LiquidError becomes a comparable description."""
+    async def co():
+        from liquid2.exceptions import LiquidError
+        try:
+            return await fn_coro()
+        except LiquidError as e:
+            tok = getattr(e, "token", None)
+            return f"{type(e).__name__}@{getattr(e, 'template_name', None)}:{getattr(tok, 'start', None)}"
+    return co
+
+
+# tasks that go through get_template_async with their own globals, or fail while loading
+LOADER_TASKS = [
+    lambda env: (lambda: _load_render(env, "greet", {"who": "Ann"})),
+    lambda env: (lambda: _load_render(env, "greet", {"who": "Bob"})),
+    lambda env: (lambda: _load_render(env, "greet", None)),
+    lambda env: _err_info(lambda: env.from_string("A{% include 'nosuch' %}", name="ta").render_async()),
+    lambda env: _err_info(lambda: env.from_string("BBBBBBBB{% render 'nosuch' %}", name="tb").render_async()),
+    lambda env: _err_info(lambda: _load_render(env, "nosuch", {"who": "X"})),
+]
+
+
+async def _load_render(env, name, globs):
+    t = await env.get_template_async(name, globals=globs)
+    return await t.render_async()
+
+
 def run_schedules(chk: Check, tier: str) -> None:
     from liquid2 import CachingDictLoader, Environment
 
-    partials = {}
+    partials = {"greet": "Hello, {{ who }}!{{ d.a }}"}
     for i, (_, parts, _) in enumerate(TASK_POOL):
         partials.update(parts)
 
@@ -203,6 +231,39 @@ def run_schedules(chk: Check, tier: str) -> None:
                         chk.violation(f"schedule-dependent-output:task{ti}:caching={caching}",
                                       {"tasks": [TASK_POOL[t][0] for t in order], "schedule": sched,
                                        "want": want, "got": results.get(slot)})
+    # loader-level tasks (own globals per caller, failing loads): all pairs, all schedules
+    lsolo = {}
+    for caching in (False, True):
+        for i, mk in enumerate(LOADER_TASKS):
+            lsolo[(i, caching)] = run_solo(mk(mk_env(caching)))
+    for caching in (False, True):
+        for i, j in itertools.combinations_with_replacement(range(len(LOADER_TASKS)), 2):
+            ni, nj = lsolo[(i, False)][1], lsolo[(j, False)][1]
+            shape = tuple(sorted((ni, nj), reverse=True))
+            order = (i, j) if ni >= nj else (j, i)
+            if shape not in schedules:
+                mod = ("---- MODULE MC_Async ----\nEXTENDS LiquidAsync\nMCPoints == <<" + ", ".join(str(x) for x in shape) + ">>\n====\n")
+                r = tlc.run("MC_Async", tlc.cfg_text(constants={"Points": "<- MCPoints", "Focus": '"sched"'},
+                                                     invariants=["ScheduleIndependent", "Export"]), tag="async-loader", timeout=1200,
+                            extra_files={"MC_Async.tla": mod})
+                try:
+                    if r.error:
+                        chk.machinery_error = r.error
+                        continue
+                    chk.tlc(r, f"all interleavings of two loader tasks with {shape} await points")
+                    schedules[shape] = [rec["schedule"] for rec in r.out_lines()]
+                finally:
+                    r.cleanup()
+            for sched in schedules.get(shape, []):
+                env = mk_env(caching)
+                facs = {slot: LOADER_TASKS[ti](env) for slot, ti in enumerate(order, start=1)}
+                results = run_schedule(facs, list(sched))
+                n += 1
+                for slot, ti in enumerate(order, start=1):
+                    want = lsolo[(ti, caching)][0]
+                    if results.get(slot) != want:
+                        chk.violation(f"schedule-dependent-output:loader-task{ti}:caching={caching}",
+                                      {"tasks": list(order), "schedule": sched, "want": want, "got": results.get(slot)})
     chk.validated(n)
     chk.add_distinct(n)
     chk.cov["evaluations"] += n
